@@ -52,6 +52,9 @@ type ReaderSpec struct {
 	FaultAt  int    `json:"fault_at,omitempty"`  // fault mode: deliver b[:FaultAt], then fail
 	FaultErr string `json:"fault_err,omitempty"` // eof | unexpected | custom | zero-then-eof
 	SeekFail bool   `json:"seek_fail,omitempty"` // Seek returns an error
+	// Pre > 0: entry points that take an io.Reader get a caller's 4 KiB bufio.Reader from which the first Pre bytes of
+	// the input (filler put there by the generator) have already been read: the structure starts Pre bytes into the buffer
+	Pre int `json:"pre,omitempty"`
 }
 
 // Req is one call.
@@ -341,6 +344,12 @@ var LastValues []any
 
 func call(q Req, in *Inst) (dig string, errs string) {
 	var err error
+	var plain io.Reader = onlyReader{in}
+	if q.Reader.Pre > 0 {
+		br := bufio.NewReaderSize(onlyReader{in}, 4096)
+		_, _ = br.Discard(q.Reader.Pre)
+		plain = br
+	}
 	keep := func(v any) {}
 	if !q.Concurrent {
 		LastValues = LastValues[:0]
@@ -411,7 +420,7 @@ func call(q Req, in *Inst) (dig string, errs string) {
 		ir := exif2.NewIfdReader(exif2.Logger)
 		defer ir.Close()
 		var sb strings.Builder
-		err = jpeg.ScanJPEG(onlyReader{in}, ir.DecodeJPEGIfd, func(r io.Reader) error {
+		err = jpeg.ScanJPEG(plain, ir.DecodeJPEGIfd, func(r io.Reader) error {
 			x, e := xmp.ParseXmp(r)
 			fmt.Fprintf(&sb, "xmp-callback err=%s\n%s", digest.Err(e), digest.Of(x))
 			return e
@@ -419,7 +428,7 @@ func call(q Req, in *Inst) (dig string, errs string) {
 		dig = sb.String() + digest.Of(ir.Exif)
 	case "ScanJPEGDrain":
 		var sb strings.Builder
-		err = jpeg.ScanJPEG(onlyReader{in}, func(r io.Reader, h meta.ExifHeader) error {
+		err = jpeg.ScanJPEG(plain, func(r io.Reader, h meta.ExifHeader) error {
 			n, e := io.CopyN(io.Discard, r, int64(h.ExifLength))
 			fmt.Fprintf(&sb, "exif-callback %s read=%d err=%s\n", digest.Of(h), n, digest.Err(e))
 			return nil
@@ -431,7 +440,7 @@ func call(q Req, in *Inst) (dig string, errs string) {
 		dig = sb.String()
 	case "ScanTiffHeader":
 		var h meta.ExifHeader
-		h, err = tiff.ScanTiffHeader(onlyReader{in}, imagetype.ImageUnknown)
+		h, err = tiff.ScanTiffHeader(plain, imagetype.ImageUnknown)
 		dig = digest.Of(h)
 	case "ScanPngHeader":
 		var h meta.ExifHeader
@@ -442,7 +451,7 @@ func call(q Req, in *Inst) (dig string, errs string) {
 		ir := exif2.NewIfdReader(exif2.Logger)
 		defer ir.Close()
 		pr := preview.NewPreviewReader(preview.Logger)
-		bmr := isobmff.NewReader(onlyReader{in})
+		bmr := isobmff.NewReader(plain)
 		defer bmr.Close()
 		bmr.ExifReader = ir.DecodeIfd
 		var drain [512]byte
@@ -472,12 +481,12 @@ func call(q Req, in *Inst) (dig string, errs string) {
 		dig = sb.String() + digest.Of(ir.Exif) + "preview=" + digest.Of(pr.PreviewImage)
 	case "ParseXmp":
 		var x xmp.XMP
-		x, err = xmp.ParseXmp(onlyReader{in})
+		x, err = xmp.ParseXmp(plain)
 		dig = digest.Of(x)
 		keep(x)
 	case "ItScan":
 		var t imagetype.ImageType
-		t, err = imagetype.Scan(onlyReader{in})
+		t, err = imagetype.Scan(plain)
 		dig = t.String()
 	case "ItScanBuf":
 		var t imagetype.ImageType
